@@ -158,6 +158,10 @@ Section Proofs.
   Theorem verify_unlimited tx : tx_total tx <= U64_MAX -> verify_m M tx U64_MAX = tx_result tx.
   Proof. intros H. apply verify_at_least_cost; auto. pose proof (tx_cost_le_total tx). lia. Qed.
 
+  Theorem verify_budget_eq_unlimited tx max :
+    tx_total tx <= U64_MAX -> tx_cost tx <= max -> verify_m M tx max = verify_m M tx U64_MAX.
+  Proof. intros H C. now rewrite (verify_at_least_cost tx max H C), (verify_unlimited tx H). Qed.
+
   (* ---- chunked runs ---------------------------------------------------------- *)
   Local Notation rvloop := (rv_loop (G M) (vstate M) (uerr M) (chunk_run M) (is_type_id M) (type_id_check M)).
   Local Notation rsloop := (rs_loop (G M) (vstate M) (uerr M) (chunk_run M) (is_type_id M) (type_id_check M)).
@@ -376,6 +380,49 @@ Section Proofs.
     - destruct (H2 L) as (st' & E & _). rewrite E. now exists (length pre).
   Qed.
 
+  Lemma cp_loop_ok gs : forall idx cur max acc c,
+    acc + tx_total gs <= U64_MAX -> cploop gs idx cur max acc = ROk c ->
+    final_of (tx_walk gs idx acc) = ROk c /\ (gs <> [] -> c <= max) /\ (gs = [] -> c = acc).
+  Proof.
+    induction gs as [|g gs IH]; intros idx cur max acc c Hov; simpl.
+    - intros [= <-]. repeat split; auto. congruence.
+    - assert (Ht : tx_total (g :: gs) = gcost g + tx_total gs) by reflexivity. rewrite Ht in Hov.
+      destruct (N.le_gt_cases acc max) as [A|A]; [|rewrite checked_sub_none by lia; discriminate].
+      rewrite (checked_sub_some max acc A).
+      destruct (vgwc_spec g (max - acc) None (gvalid_none g)) as [H1 H2]. rewrite gprog_none, N.sub_0_r in H1, H2.
+      destruct (N.le_gt_cases (gcost g) (max - acc)) as [L|L].
+      + rewrite (H1 L). destruct (gverdict g) as [e|] eqn:V; [discriminate|].
+        rewrite checked_add_some by lia. intros R.
+        destruct (IH (Datatypes.S idx) cur max (acc + gcost g) c) as (F & B1 & B2); auto; try lia.
+        split; [exact F|]. split; [|discriminate]. intros _.
+        destruct gs as [|h gs']; [rewrite (B2 eq_refl); lia|apply B1; discriminate].
+      + destruct (H2 L) as (st' & E & _). rewrite E. discriminate.
+  Qed.
+
+  (* complete never reports a wrong total, and succeeds only when the budget
+     plus the cycles the suspended group had already consumed covers the cost *)
+  Theorem complete_ok_bound tx ts max c :
+    tx_total tx <= U64_MAX -> Good tx ts -> complete_m M tx ts max = ROk c ->
+    tx_result tx = ROk c /\ c = tx_cost tx /\ c <= max + ts_progress M Sp tx ts.
+  Proof.
+    intros Hov (pre & g & post & -> & Hc & Hpre & Hcy & Hv).
+    unfold ts_progress. rewrite Hc, nth_error_mid. fold (gprog g (ts_state ts)).
+    unfold complete_m, complete. rewrite Hc, nth_error_mid, skipn_mid, Hcy.
+    fold (gvalid g (ts_state ts)) in Hv.
+    destruct (N.ltb_spec max (tx_total pre)) as [X|X]; [discriminate|].
+    destruct (vgwc_spec g (max - tx_total pre) (ts_state ts) Hv) as [H1 H2].
+    pose proof (gprog_le g _ Hv) as Hp. rewrite total_mid in Hov.
+    rewrite (tx_result_at pre g post Hpre), (tx_cost_at pre g post Hpre). simpl tx_walk.
+    destruct (N.le_gt_cases (gcost g - gprog g (ts_state ts)) (max - tx_total pre)) as [L|L].
+    - rewrite (H1 L). destruct (gverdict g) as [e|] eqn:V; [discriminate|].
+      rewrite checked_add_some by lia. intros R.
+      destruct (cp_loop_ok post (Datatypes.S (length pre)) (length pre) max (tx_total pre + gcost g) c) as (F & B1 & B2); [lia|exact R|].
+      split; [exact F|]. split.
+      + destruct (tx_walk post (Datatypes.S (length pre)) (tx_total pre + gcost g)) as [w [[i e]|]]; simpl in *; congruence.
+      + destruct post as [|h post']; [rewrite (B2 eq_refl); lia|]. assert (c <= max) by (apply B1; discriminate). lia.
+    - destruct (H2 L) as (st' & E & _). rewrite E. discriminate.
+  Qed.
+
   (* ---- pause / resume signals ------------------------------------------------------ *)
   Local Notation sgroup := (signal_group (G M) (vstate M) (uerr M) (chunk_run M)).
 
@@ -425,6 +472,149 @@ Section Proofs.
   Proof.
     intros Hov Hc. unfold signal_m, resumable_verify_with_signal, ChunkSpec.tx_result.
     apply signal_loop_spec; auto; lia.
+  Qed.
+
+  (* ---- progress --------------------------------------------------------------------- *)
+  Hypothesis HP : Progressive M Sp.
+  Local Notation gatom := (gatom M Sp).
+  Local Notation tx_atom := (tx_atom M Sp).
+
+  Lemma rs_loop_after gs : forall idx limit acc u ts,
+    rsloop gs idx limit acc u = ROk (VSuspended ts) -> (idx <= ts_current ts)%nat.
+  Proof.
+    induction gs as [|g gs IH]; intros idx limit acc u ts; simpl; [discriminate|].
+    destruct (checked_sub limit u); [|discriminate].
+    destruct (vgwc g n None) as [used csm|st|c]; [| |discriminate].
+    - destruct (checked_add u csm); [|discriminate]. destruct (checked_add acc csm); [|discriminate].
+      intros H. apply IH in H. lia.
+    - intros [= <-]. simpl. lia.
+  Qed.
+
+  Lemma rv_loop_after gs : forall idx limit acc u ts,
+    rvloop gs idx limit acc u = ROk (VSuspended ts) -> (idx <= ts_current ts)%nat.
+  Proof.
+    induction gs as [|g gs IH]; intros idx limit acc u ts; simpl; [discriminate|].
+    destruct (checked_sub limit u); [|discriminate].
+    destruct (vgwc g n None) as [used csm|st|c]; [| |discriminate].
+    - destruct (checked_add u csm); [|discriminate]. destruct (checked_add acc used); [|discriminate].
+      intros H. apply IH in H. lia.
+    - intros [= <-]. simpl. lia.
+  Qed.
+
+  Lemma tx_atom_ge tx g : In g tx -> gatom g <= tx_atom tx.
+  Proof. induction tx; simpl; [tauto|]. intros [->|H]; [lia|]. specialize (IHtx H). lia. Qed.
+
+  Lemma vgwc_progress g L st st' : gvalid g st -> gatom g <= L ->
+    vgwc g L st = CSuspended st' -> gprog g st < gprog g st'.
+  Proof.
+    unfold verify_group_with_chunk, gvalid, gprog, ChunkSpec.gatom. intros V A.
+    destruct (is_type_id M g) eqn:T.
+    - unfold type_id_verify. destruct (N.ltb_spec L TYPE_ID_CYCLES); [lia|].
+      destruct (type_id_check M g); discriminate.
+    - destruct V as [V|V]; [discriminate|].
+      destruct (chunk_run M g st L) as [a b|s|e] eqn:E; try discriminate.
+      intros [= <-]. simpl. apply (HP g st L s T V A E).
+  Qed.
+
+  (* what is left to do in a captured state: remaining groups (each counted
+     once more than its cycles) minus the cycles already consumed *)
+  Definition mu_of (g : G M) (post : list (G M)) (st : option (vstate M)) : N :=
+    tx_total (g :: post) + N.of_nat (length (g :: post)) - gprog g st.
+
+  Lemma split_later {A} (pre : list A) : forall g post pre' g' post',
+    pre ++ g :: post = pre' ++ g' :: post' -> (Datatypes.S (length pre) <= length pre')%nat ->
+    exists mid, post = mid ++ g' :: post'.
+  Proof.
+    induction pre as [|a pre IH]; intros g post pre' g' post' E L; destruct pre' as [|b pre']; simpl in *; try lia.
+    - injection E as _ E. now exists pre'.
+    - injection E as _ E. apply (IH _ _ _ _ _ E). lia.
+  Qed.
+
+  Lemma split_same {A} (pre : list A) : forall g post pre' g' post',
+    pre ++ g :: post = pre' ++ g' :: post' -> length pre = length pre' ->
+    pre = pre' /\ g = g' /\ post = post'.
+  Proof.
+    induction pre as [|a pre IH]; intros g post pre' g' post' E L; destruct pre' as [|b pre']; simpl in *; try lia.
+    - injection E as -> ->. auto.
+    - injection E as -> E. destruct (IH _ _ _ _ _ E) as (-> & -> & ->); auto.
+  Qed.
+
+  Lemma resume_decreases pre g post ts limit ts' :
+    limit <= U64_MAX -> tx_total (pre ++ g :: post) <= U64_MAX -> tx_atom (pre ++ g :: post) <= limit ->
+    ts_current ts = length pre -> Forall (fun h => gverdict h = None) pre ->
+    ts_current_cycles ts = tx_total pre -> gvalid g (ts_state ts) ->
+    resume_from_state_m M (pre ++ g :: post) ts limit = ROk (VSuspended ts') ->
+    exists pre' g' post', pre ++ g :: post = pre' ++ g' :: post' /\ ts_current ts' = length pre' /\
+       Forall (fun h => gverdict h = None) pre' /\ ts_current_cycles ts' = tx_total pre' /\
+       gvalid g' (ts_state ts') /\
+       mu_of g' post' (ts_state ts') < mu_of g post (ts_state ts).
+  Proof.
+    intros Hl Hov Ha Hc Hpre Hcy Hv R.
+    assert (Gd : Good (pre ++ g :: post) ts) by (exists pre, g, post; auto).
+    pose proof (resume_from_state_ok _ ts limit Hl Hov Gd) as OK. rewrite R in OK. simpl in OK.
+    destruct OK as (pre' & g' & post' & E & Hc' & Hpre' & Hcy' & Hv').
+    exists pre', g', post'. repeat split; auto.
+    pose proof (gprog_le g _ Hv) as Hp. fold (gvalid g' (ts_state ts')) in Hv'. pose proof (gprog_le g' _ Hv') as Hp'.
+    unfold resume_from_state_m, resume_from_state in R. rewrite Hc, nth_error_mid, skipn_mid in R.
+    destruct (vgwc g limit (ts_state ts)) as [used csm|st'|c] eqn:V; [| |discriminate].
+    - (* the resumed group finished: the new state is in a later group *)
+      destruct (checked_add 0 csm); [|discriminate]. destruct (checked_add (ts_current_cycles ts) used); [|discriminate].
+      apply rs_loop_after in R. rewrite Hc' in R.
+      destruct (split_later pre g post pre' g' post' E R) as (mid & ->).
+      unfold mu_of. simpl tx_total. rewrite tx_total_app. simpl tx_total.
+      simpl length. rewrite app_length. simpl length. lia.
+    - (* suspended again in the same group: strict progress *)
+      injection R as <-. simpl in *.
+      destruct (split_same pre g post pre' g' post' E Hc') as (<- & <- & <-).
+      assert (A : gatom g <= limit).
+      { assert (I : In g (pre ++ g :: post)) by (apply in_or_app; right; left; reflexivity).
+        pose proof (tx_atom_ge (pre ++ g :: post) g I). lia. }
+      pose proof (vgwc_progress g limit _ _ Hv A V) as P.
+      unfold mu_of. simpl tx_total. simpl in Hp'. lia.
+  Qed.
+
+  Lemma mu_pos g post st : gvalid g st -> 1 <= mu_of g post st.
+  Proof. intros V. pose proof (gprog_le g st V). unfold mu_of. simpl. lia. Qed.
+
+  Lemma mu_le_total pre g post st : mu_of g post st <= tx_total (pre ++ g :: post) + N.of_nat (length (pre ++ g :: post)).
+  Proof. unfold mu_of. rewrite tx_total_app, app_length. lia. Qed.
+
+  Lemma progress_chain tx ls : Forall (fun l => tx_atom tx <= l <= U64_MAX) ls -> tx_total tx <= U64_MAX ->
+    forall pre g post ts, tx = pre ++ g :: post ->
+      ts_current ts = length pre -> Forall (fun h => gverdict h = None) pre ->
+      ts_current_cycles ts = tx_total pre -> gvalid g (ts_state ts) ->
+      mu_of g post (ts_state ts) <= N.of_nat (length ls) ->
+      forall ts', resume_chain_m M tx ts ls <> ROk (VSuspended ts').
+  Proof.
+    intros Hls Hov. induction Hls as [|l ls [Hl1 Hl2] _ IH]; intros pre g post ts -> Hc Hpre Hcy Hv Hmu ts'.
+    - simpl in Hmu. pose proof (mu_pos g post _ Hv). lia.
+    - unfold resume_chain_m. simpl.
+      destruct (resume_from_state (G M) (vstate M) (uerr M) (chunk_run M) (is_type_id M) (type_id_check M) (pre ++ g :: post) ts l)
+        as [[c|ts1]|s c|] eqn:R; try discriminate.
+      destruct (resume_decreases pre g post ts l ts1 Hl2 Hov Hl1 Hc Hpre Hcy Hv R)
+        as (pre' & g' & post' & E & Hc' & Hpre' & Hcy' & Hv' & D).
+      apply (IH pre' g' post' ts1 E Hc' Hpre' Hcy' Hv').
+      simpl length in Hmu. lia.
+  Qed.
+
+  (* enough chunks, each at least the largest atomic step of the transaction:
+     the chunked run comes to an end (and then agrees with the uninterrupted run) *)
+  Theorem progress tx l0 ls :
+    l0 <= U64_MAX -> Forall (fun l => tx_atom tx <= l <= U64_MAX) ls -> tx_total tx <= U64_MAX ->
+    tx_total tx + N.of_nat (length tx) <= N.of_nat (length ls) ->
+    run_chunks_m M tx l0 ls = lift_result M (tx_result tx).
+  Proof.
+    intros H0 Hls Hov Hn.
+    assert (Hls' : Forall (fun l => l <= U64_MAX) ls) by (eapply Forall_impl; [|exact Hls]; simpl; intros; lia).
+    pose proof (run_chunks_ok tx l0 ls H0 Hls' Hov) as OK.
+    destruct (run_chunks_m M tx l0 ls) as [[c|ts']|s c|] eqn:R; auto.
+    exfalso. unfold run_chunks_m, run_chunks in R.
+    pose proof (resumable_verify_ok tx l0 H0 Hov) as OK0. unfold resumable_verify_m in OK0.
+    destruct (resumable_verify (G M) (vstate M) (uerr M) (chunk_run M) (is_type_id M) (type_id_check M) tx l0)
+      as [[c|ts0]|s c|]; try discriminate.
+    simpl in OK0. destruct OK0 as (pre & g & post & E & Hc & Hpre & Hcy & Hv).
+    refine (progress_chain tx ls Hls Hov pre g post ts0 E Hc Hpre Hcy Hv _ ts' R).
+    pose proof (mu_le_total pre g post (ts_state ts0)). rewrite <- E in H. lia.
   Qed.
 
 End Proofs.
